@@ -37,6 +37,18 @@ CHECKS = {
         "text": "MC_Dag proves that replacing a rule changes only terms that mention it. On the real rule base every parameter group is perturbed and sampled rules are replaced by user functions; TLC derives the users of the group/rule and their descendants from the function table recorded with the base run and accepts iff all other columns are identical; deep copies, cloned functions and a re-run of the untouched environment must change nothing.",
         "note": "Perturbations scale/shift float leaves only; rounding specs untouched; users include rules rounded with the group's rounding spec; reforms that make a rule raise are recorded, not judged.",
     },
+    "C11": {
+        "level": "model_checking",
+        "technique": "TLA+ definitions of the aggregations over exact decimals (Aggregate.tla) model-checked (MC_Aggregate); TLC-enumerated columns replayed into grouped_*/sum_by_p_id/join_numpy; aggregation nodes of real runs (as derived by Derive.tla) recomputed by TLC (Trace_Arith)",
+        "text": "Aggregate.tla defines the seven group aggregations, pointer sums and the join as set comprehensions over exact decimals; TLC proves conservation, constancy within groups and membership exactness on every small column/group assignment and each is replayed through the implementation with float, int, bool and date columns, sparse unsorted ids and negative pointers. On the real rule base Derive.tla determines which node is which aggregation (built-in spec, user spec, automatic sum; user beats built-in) and TLC recomputes every aggregation node from the parent columns of the same run on all seven grouping levels.",
+        "note": "<= 4 rows exhaustive (5 thorough), real-DAG nodes on seeded populations; sums and means of floats to 1e-9 relative; pointer aggregations other than sum are NotImplemented in the numpy back end (loud).",
+    },
+    "C13": {
+        "level": "model_checking",
+        "technique": "converter algebra and wiring model-checked on the specified pipeline (MC_Dag UnitsByFactor); derived time nodes of real runs (as derived by Derive.tla) checked by TLC on exact decimals (Trace_Arith conv); inputs supplied in other units (Trace_Runs close)",
+        "text": "MC_Dag proves that all available units of a flow denote one yearly value in every well-formed configuration (derived nodes never shadow rules or data, no cycle). On the real rule base every derived time node is compared with its source by x_u*F(u) = x_v*F(v) on exact decimals at individual and group level with rounding on, the twelve converters are checked on a grid, and flow inputs are supplied in other time units with all default targets required to agree.",
+        "note": "1e-12 relative for the factor identity, 1e-9 for alternative-unit inputs; one explicit definition per flow (W1) assumed and true of the rule base.",
+    },
 }
 
 NOT_APPLICABLE = {}
